@@ -433,8 +433,11 @@ def run_check(prop, tier, seed, replay=None):
             violations.append(('violation', res, res.oracle))
             return
         # disagreement between implementation and model(known flags)
-        if res.oracle is not None:
+        if res.oracle is not None and not res.hit:
             violations.append(('violation', res, res.oracle))
+        elif res.oracle is not None:
+            # a case set aside for a known finding: what the oracle says there is the finding; what is new is the disagreement
+            violations.append(('disagreement', res, 'implementation and model disagree (in a case of the known finding %s)' % ', '.join(res.hit)))
         else:
             violations.append(('disagreement', res, 'implementation and model disagree'))
 
@@ -474,7 +477,7 @@ def run_check(prop, tier, seed, replay=None):
         def still_bad(c):
             r = evaluate(prop, [c], driver)[0]
             # never shrink an unlisted violation into one that a known finding explains
-            return (r.oracle is not None and not (r.agrees and r.hit)) if want_oracle else (not r.agrees)
+            return (r.oracle is not None and not r.hit) if want_oracle else (not r.agrees)
         return still_bad
 
     if real:
@@ -495,7 +498,7 @@ def run_check(prop, tier, seed, replay=None):
             search_pool.extend(prop.generate(random.Random(seed + 1), tier))
         if search_pool:
             for res in evaluate(prop, search_pool, driver, 'search'):
-                if res.oracle is not None and not (res.agrees and res.hit):
+                if res.oracle is not None and not res.hit:
                     found = res
                     break
         if found is not None:
